@@ -66,7 +66,8 @@ def gen_case(rng, tier="quick"):
     d = max(dims)
     steps = rng.randrange(1, 4 if n >= 5 else 5)
     if big == "steps":
-        steps = rng.randrange(20, 80) if n == 2 else rng.randrange(20, 45)
+        steps = rng.randrange(20, 80 if tier == "quick" else 140) \
+            if n == 2 else rng.randrange(20, 45)
     case = {
         "kind": kind, "n": n, "d": d, "dims": dims, "steps": steps,
         "order": _pick(rng, [1, 2]), "dt": _pick(rng, [0.05, 0.1, 0.2]),
@@ -347,15 +348,23 @@ def build_chain(case):
         # the chain object is used by a computation while it is still being
         # assembled (only part of the site terms are there yet)
         half = max(1, n // 2)
+
+        def add_early(i, sign):
+            # through the same kind of entry point as the rest of the build
+            if entry == "liouvillians":
+                chain.add_site_liouvillian(
+                    i, sign * _site_liouvillian(hs[i], []))
+            else:
+                chain.add_site_hamiltonian(i, sign * hs[i])
         for i in range(half):
-            chain.add_site_hamiltonian(i, hs[i])
+            add_early(i, 1.0)
         early = oqupy.PtTebd(
             oqupy.AugmentedMPS(initial_states(case)), chain, [None] * n,
             oqupy.PtTebdParameters(dt=case["dt"], order=case["order"],
                                    epsrel=case["epsrel"]))
         early.compute(1, progress_type="silent")
         for i in range(half):
-            chain.add_site_hamiltonian(i, -hs[i])
+            add_early(i, -1.0)
     for i in range(n):
         if entry == "liouvillians":
             # the same generator handed over through the Liouvillian entry
@@ -524,6 +533,7 @@ def _install_sim(sim, case):
     import oqupy.backends.pt_tebd_backend as B
     simsched.install(sim)
     simexec.install_executors(B)
+    simsched.adopt_module_sync(B)
     codes = simsched.code_objects_of(B)
 
     def on_line(code, line):
